@@ -181,6 +181,20 @@ ResetMaxFloor ==
   /\ UNCHANGED <<sel, active, sampledTask, cnt>> /\ last' = "reset"
 NextBadReset == (\E k \in Tasks : Select(k)) \/ Add \/ (\E t \in active : \E tv \in TickVectors(bufs[t]) : Sample(t, tv))
                 \/ (\E n \in 1..MaxBatch : \E v \in [1..n -> PrioVals] : UpdatePriority(v)) \/ ResetMaxFloor
+(* canary: reset_max_priority recomputes only the task the last batch was sampled from ("priorities are only     *)
+(* modified by update_priority, which targets that task") - several sample/update rounds on different tasks lie   *)
+(* between two resets, so the other tasks keep a stale maximum: ResetExact (all tasks) must fail for K > 1        *)
+ResetMaxLastSampled ==
+  /\ bufs' = [t \in Tasks |->
+       [bufs[t] EXCEPT !.maxPrio = IF t = sampledTask /\ bufs[t].len > 0 THEN TrueMax(bufs[t]) ELSE bufs[t].maxPrio]]
+  /\ UNCHANGED <<sel, active, sampledTask, cnt>> /\ last' = "reset"
+NextBadResetLast == (\E k \in Tasks : Select(k)) \/ Add \/ (\E t \in active : \E tv \in TickVectors(bufs[t]) : Sample(t, tv))
+                    \/ (\E n \in 1..MaxBatch : \E v \in [1..n -> PrioVals] : UpdatePriority(v)) \/ ResetMaxLastSampled
+(* reachability target (the driver requires TLC to REFUTE it in every multi-task lattice): a reset is taken while  *)
+(* a task OTHER than the one of the last batch tracks a maximum above its true maximum (its priorities were        *)
+(* lowered by updates since the previous reset, then a batch was drawn from another task)                         *)
+NoResetStaleOther == [][~(last' = "reset" /\ \E t \in Tasks :
+                           t # sampledTask /\ bufs[t].len > 0 /\ bufs[t].maxPrio > TrueMax(bufs[t]))]_vars
 NextBad == AddBad \/ (\E t \in active : \E tv \in TickVectors(bufs[t]) : Sample(t, tv))
            \/ (\E n \in 1..MaxBatch : \E v \in [1..n -> PrioVals] : UpdatePriority(v))
 =============================================================================
